@@ -80,6 +80,7 @@ TABLES_B = [
     # ---- attack graph: evaluation of step expressions, generation, bookkeeping, codec
     ('B300', '_process_step_expression', ('C01', 'C16')),
     ('B301', 'AttackGraph._generate_graph', ('C01', 'C02')),
+    ('B313', 'LanguageGraph._generate_graph', ('C15', 'C06')),
     ('B302', 'AttackGraph.add_node', ('C09', 'C02')),
     ('B303', 'AttackGraph.remove_node', ('C09', 'C13')),
     ('B304', 'AttackGraph.add_attacker', ('C09', 'C11')),
@@ -462,7 +463,8 @@ def _skeleton(t):
     return t
 
 
-_KIND_NEUTRAL = {'not', 'and', 'or', 'bf', 'const', 'lit', 'table', 'out', 'v', 'arg', 'ite', 'eq', 'lt', 'le', 'new'}
+_KIND_NEUTRAL = {'not', 'and', 'or', 'bf', 'const', 'lit', 'table', 'out', 'v', 'arg', 'ite', 'eq', 'lt', 'le', 'new', 'break',
+                 'foreach', 'foreach-exit'}
 
 
 def _kinds(t, acc):
